@@ -15,6 +15,7 @@ import (
 
 	"verif/core"
 	"verif/lab/srvlab"
+	"verif/memconn"
 	"verif/peer"
 	"verif/sched"
 	"verif/script"
@@ -60,6 +61,7 @@ func c09Cases(tier string, seed int64) []core.Case {
 				}})
 			}
 		}
+		cases = append(cases, core.Case{ID: fmt.Sprintf("early-reply/dotu=%v", dotu), Run: func(ctx *core.Ctx) core.Result { return c09EarlyReply(ctx, dotu) }})
 		cases = append(cases, core.Case{ID: fmt.Sprintf("errors/dotu=%v", dotu), Run: func(ctx *core.Ctx) core.Result { return c09Errors(ctx, dotu) }})
 		cases = append(cases, core.Case{ID: fmt.Sprintf("tagiface/dotu=%v", dotu), Run: func(ctx *core.Ctx) core.Result { return c09TagIface(ctx, dotu, tier == "thorough") }})
 	}
@@ -610,3 +612,141 @@ func c09TagIface(ctx *core.Ctx, dotu bool, thorough bool) core.Result {
 }
 
 var _ = srvlab.W
+
+// c09EarlyReply: a server that answers a large Twrite as soon as it has seen its header, while most of the request is
+// still on its way through a slow, fragmenting transport (a server may do that: it knows the count). The call returns,
+// the application reuses the client for the next call — and the rest of the first request, still being written by the
+// client's writer, must stay the first request's bytes.
+func c09EarlyReply(ctx *core.Ctx, dotu bool) core.Result {
+	var res core.Result
+	for round := 0; round < 6 && len(res.Violations) == 0; round++ {
+		ctx.Beat()
+		cli, srv := memconn.Pipe("client", "early-replying-server")
+		cli.MaxWrite = 64 + 32*round                                         // the client's writes go out in small pieces …
+		cli.BeforeWrite = func(n int) { time.Sleep(150 * time.Microsecond) } // … slowly
+		sched.Install(sched.New(nil, nil))
+		type got struct {
+			first, second []byte
+			err           string
+		}
+		out := make(chan got, 1)
+		payload1 := bytes.Repeat([]byte{'A'}, 3000+100*round)
+		payload2 := bytes.Repeat([]byte{'B'}, 3000+100*round)
+		go func() {
+			var g got
+			defer func() { out <- g }()
+			rd := func(n int) []byte {
+				b := make([]byte, n)
+				if _, err := io.ReadFull(srv, b); err != nil {
+					g.err = "server read: " + err.Error()
+					return nil
+				}
+				return b
+			}
+			readFrame := func() []byte {
+				h := rd(4)
+				if h == nil {
+					return nil
+				}
+				sz := int(h[0]) | int(h[1])<<8 | int(h[2])<<16 | int(h[3])<<24
+				rest := rd(sz - 4)
+				if rest == nil {
+					return nil
+				}
+				return append(h, rest...)
+			}
+			// Tversion
+			f := readFrame()
+			if f == nil {
+				return
+			}
+			tv, _, _ := wire.Decode(f, dotu)
+			ver := "9P2000"
+			if dotu {
+				ver = "9P2000.u"
+			}
+			_, _ = srv.Write(wire.Encode(&wire.Msg{Type: wire.Rversion, Tag: tv.Tag, Msize: 8192, Version: ver}, dotu))
+			// first Twrite: header only, then the answer, then the rest
+			h := rd(7)
+			if h == nil {
+				return
+			}
+			sz := int(h[0]) | int(h[1])<<8 | int(h[2])<<16 | int(h[3])<<24
+			tag := uint16(h[5]) | uint16(h[6])<<8
+			_, _ = srv.Write(wire.Encode(&wire.Msg{Type: wire.Rwrite, Tag: tag, Count: uint32(len(payload1))}, dotu))
+			time.Sleep(3 * time.Millisecond) // the application gets its answer and goes on
+			rest := rd(sz - 7)
+			if rest == nil {
+				return
+			}
+			g.first = rest[len(rest)-len(payload1):]
+			// second Twrite, whole
+			f2 := readFrame()
+			if f2 == nil {
+				return
+			}
+			m2, _, err := wire.Decode(f2, dotu)
+			if err != nil {
+				g.err = "second request does not decode: " + err.Error()
+				return
+			}
+			g.second = m2.Data
+			_, _ = srv.Write(wire.Encode(&wire.Msg{Type: wire.Rwrite, Tag: m2.Tag, Count: m2.Count}, dotu))
+		}()
+		c, err := go9p.Connect(cli, 8192, dotu)
+		if err != nil {
+			res.Inconclusive = "c09: connect: " + err.Error()
+			return res
+		}
+		fid := c.FidAlloc()
+		fid.Fid = 5
+		fid.Iounit = 8192 - go9p.IOHDRSZ
+		done := make(chan string, 1)
+		go func() {
+			if n, err := c.Write(fid, payload1, 0); err != nil || n != len(payload1) {
+				done <- fmt.Sprintf("first write: (%d, %v)", n, err)
+				return
+			}
+			if n, err := c.Write(fid, payload2, 100); err != nil || n != len(payload2) {
+				done <- fmt.Sprintf("second write: (%d, %v)", n, err)
+				return
+			}
+			done <- ""
+		}()
+		res.Evals++
+		var g got
+		select {
+		case g = <-out:
+		case <-time.After(W):
+			res.Inconclusive = "c09: early-reply scenario did not finish"
+			go c.Unmount()
+			return res
+		}
+		select {
+		case e := <-done:
+			if e != "" && g.err == "" {
+				g.err = e
+			}
+		case <-time.After(W):
+		}
+		det := map[string]interface{}{"payload_bytes": len(payload1), "client_write_chunk": cli.MaxWrite, "dotu": dotu}
+		switch {
+		case g.err != "":
+			res.Inconclusive = "c09: early-reply scenario: " + g.err
+		case !bytes.Equal(g.first, payload1):
+			foreign := 0
+			for _, b := range g.first {
+				if b != 'A' {
+					foreign++
+				}
+			}
+			res.Violate("C09;request-carries-foreign-data;early-reply", fmt.Sprintf("the first Twrite was answered early; the rest of it arrived with %d of %d payload bytes that are not its own", foreign, len(payload1)), det)
+		case !bytes.Equal(g.second, payload2):
+			res.Violate("C09;request-carries-foreign-data;early-reply;second", "the second Twrite arrived with a payload that is not its own", det)
+		}
+		go c.Unmount()
+		res.Sig(fmt.Sprintf("early-reply|%v|%d", dotu, round))
+	}
+	res.Sample(map[string]interface{}{"scenario": "server answers a large Twrite after its header, client reuses the request buffer while the rest is still being written"})
+	return res
+}
